@@ -1,4 +1,4 @@
-\* implementation as it is now, archive without listfile: TLC must exhibit a compact() that is not the abstract Compact
+\* implementation as it is now, archive WITHOUT listfile, unencrypted: compact() refuses (2d95992) instead of dropping; refines MpqMap
 CONSTANTS
   H = 4
   UNames <- MCNames
@@ -6,7 +6,7 @@ CONSTANTS
   InitSeq <- MCInit
   InitTok <- MCInitTok
   InitRaw = {}
-  SubOf <- MCSub
+  SubOf <- NoSub
   HasLF0 = FALSE
   HasAT0 = FALSE
   Slack = 2
@@ -14,6 +14,7 @@ CONSTANTS
   Ver = 1
   MaxCalls = 4
   MCToks = {"t1"}
-SPECIFICATION CodeNowSpec
-PROPERTY AtomicRefines
+SPECIFICATION CodeOkSpec
+INVARIANT SlotType TableInv ProbeBounded TablesDisjointFromData NoDamage AbsClean
+PROPERTY AbsSpec OpRefines AtomicRefines
 CHECK_DEADLOCK FALSE
